@@ -261,7 +261,7 @@ def run_enum(build_asan, name, seedpath, root, exclusions, start=0, stop=None, t
     keys, crashes, samples, notes = {}, [], [], []
     first, complete, domain = start, False, None
     t0 = time.time()
-    for attempt in range(60):
+    for attempt in range(30):
         cmd = [os.path.join(build_asan, "enum_open"), seedpath, outdir, "all", "--start", str(start)]
         if stop is not None:
             cmd += ["--stop", str(stop)]
@@ -307,7 +307,7 @@ def run_enum(build_asan, name, seedpath, root, exclusions, start=0, stop=None, t
         domain = summ["domain"]
         break
     else:
-        notes.append("enum %s%s: more than 60 crashing inputs, enumeration abandoned at index %d" % (name, tag, start))
+        notes.append("enum %s%s: more than 30 crashing inputs, enumeration abandoned at index %d" % (name, tag, start))
     shutil.rmtree(tmpdir, ignore_errors=True)
     shutil.rmtree(outdir, ignore_errors=True)
     tot["skipped"] = tot["skipped_ndims"] + tot["skipped_att_nelems"] + tot["skipped_neg64"]
